@@ -58,6 +58,7 @@ type Contract struct {
 	Preserves []Clause // 'preserves E': E == old(E) after every call (reflexive and transitive, so also across an iteration)
 	ImplParams      int  // with 'implementations N': the number of parameters (receiver included) an implementing method must have
 	Allocates       bool // the function may allocate objects reachable from its results
+	After           map[string][]Clause // 'after CALLEE assume E': an assumption about what a callee returned (listed as unchecked)
 	Implementations bool // interface method contract that also stands for every implementing method without a contract of its own
 	Iterates string   // schema contract: calls this function-typed parameter any number of times (stops at its first error)
 	NonBlocking []string // lock classes (Struct.field) whose acquisition in this function is assumed not to block
@@ -415,6 +416,24 @@ func (cs *ContractSet) ParseContractText(file, pkgPath, pkgName, text string) {
 						cur.Safety[strings.TrimPrefix(k, "+")] = true
 					}
 				}
+			}
+		case "after":
+			// after CALLEE assume E
+			if cur == nil {
+				cs.errf(file, rl.line, "after outside func")
+				continue
+			}
+			f := strings.SplitN(rest, " ", 3)
+			if len(f) < 3 || f[1] != "assume" {
+				cs.errf(file, rl.line, "bad clause (want: after CALLEE assume E)")
+				continue
+			}
+			if c, ok := mkClause(f[2]); ok {
+				if cur.After == nil {
+					cur.After = map[string][]Clause{}
+				}
+				cur.After[f[0]] = append(cur.After[f[0]], c)
+				cs.Trust = append(cs.Trust, fmt.Sprintf("%s %s: assumed about the result of %s: %s", pkgPath, cur.Key, f[0], f[2]))
 			}
 		case "before":
 			// before CALLEE requires E
